@@ -6,10 +6,12 @@ this process the limit drops, so that a tree on which many inputs hang does not 
 _hangs = 0
 LONG = 60
 SHORT = 20
+LAST = 5
 
 
 def limit(scale=1):
-    return (LONG if _hangs < 3 else SHORT) * scale
+    # after ten timeouts the tree is known to hang on many inputs: do not let the rest of the run take an hour
+    return (LONG if _hangs < 3 else SHORT if _hangs < 10 else LAST) * scale
 
 
 def saw_hang():
